@@ -192,8 +192,11 @@ pub fn run_case(n: u64, case: &Case, out: &mut Out) -> Result<(), String> {
         .keys()
         .map(|k| k.to_string())
         .collect();
+    // A configuration the compiler translated differently (a task or program missing) is not a
+    // harness error: the case runs on and the executed sequences differ from the model's, which
+    // is reported as a failing input of the property.
     if rt_tasks.len() != case.tasks.len() || prog_names.len() != nprogs {
-        return Err("configuration shape differs".into());
+        out.count("configuration_shape_differs");
     }
     for (i, t) in case.tasks.iter().enumerate() {
         let mut progs: Vec<usize> = case
